@@ -112,7 +112,11 @@ class Node(ElementBase):
             link_up = next(iter(links_up))[-1]
             v = link_up.states["v"][-1]
             q = link_up.get_flow(engine)[-1]
-            if q_o is not None:
+            links_down = net.out_links(self)
+            if len(links_down) > 1:
+                betas = engine.vcat(*(dlink.turnrate for _, _, dlink in links_down))
+                q = engine.nodes.get_upstream_flow(q, link.turnrate, betas, q_o)
+            elif q_o is not None:
                 q += q_o  # type: ignore[assignment,operator]
         else:
             v_last = []
